@@ -19,6 +19,7 @@ import (
 	"encoding/json"
 	"fmt"
 	"math/rand"
+	"runtime"
 	"sort"
 	"strings"
 	"sync/atomic"
@@ -501,12 +502,18 @@ func c05Run(w *c05World, rec *vu.Recorder, script []c05Op) {
 		}
 		ev := c05Event(o)
 		before := atomic.LoadInt32(&c05Panics)
+		goroutines := runtime.NumGoroutine()
 		panicked, msg := vu.Protect(func() {
 			for k, v := range c05ApplyOp(w, o) {
 				ev[k] = v
 			}
 			ev["obs"] = c05Project(w.cache)
 		})
+		// a worker of the plugin's Parallelizer signals completion BEFORE its crash handler runs: let the workers
+		// of this operation finish, so that a swallowed panic is attributed to the operation that caused it
+		for i := 0; i < 2000 && runtime.NumGoroutine() > goroutines; i++ {
+			time.Sleep(100 * time.Microsecond)
+		}
 		if panicked || atomic.LoadInt32(&c05Panics) != before {
 			// the specification has no such action: the segment is rejected at this event
 			rec.Emit(vu.Ev{"op": "panic", "during": ev, "msg": fmt.Sprint(msg)})
